@@ -28,17 +28,48 @@ void san_child_redirect(void)
 
 int san_classify(char *key, size_t n)
 {
+    return san_classify_file(san_errfile(), key, n);
+}
+
+int san_classify_file(const char *path_in, char *key, size_t n)
+{
     char line[600];
-    FILE *f = fopen(san_errfile(), "r");
+    FILE *f = fopen(path_in, "r");
     key[0] = 0;
     if (!f)
     {
         return 0;
     }
+    char ufunc[100] = "", ufile[240] = "";
+    int in_first_stack = 0, stacks = 0;
     while (fgets(line, sizeof(line), f))
     {
         char *p;
         line[strcspn(line, "\n")] = 0;
+        /* first user frame of the FIRST stack of the report (the faulting access / the second free): the SUMMARY line names
+           the interceptor (memcpy, free, ...) when the access happens inside libc */
+        if (!ufunc[0] && stacks <= 1 && (p = strstr(line, "    #")) == line)
+        {
+            char fn[100] = "", fp[240] = "";
+            if (!in_first_stack)
+            {
+                in_first_stack = 1;
+                stacks++;
+            }
+            if (stacks == 1 && sscanf(line, "    #%*d %*s in %99s %239s", fn, fp) == 2 && strncmp(fn, "__interceptor", 13) && strncmp(fn, "__asan", 6) && strncmp(fn, "__wrap_", 7) && strncmp(fn, "__real_", 7) &&
+                !strstr(fp, "sanitizer_common") && !strstr(fp, "/asan/") && !strstr(fp, "asan_"))
+            {
+                char *b = strrchr(fp, '/');
+                char *c;
+                snprintf(ufile, sizeof(ufile), "%s", b ? b + 1 : fp);
+                if ((c = strchr(ufile, ':'))) *c = 0;
+                snprintf(ufunc, sizeof(ufunc), "%s", fn);
+            }
+        }
+        else if (in_first_stack && strstr(line, "    #") != line)
+        {
+            in_first_stack = 0;
+        }
         if ((p = strstr(line, "SUMMARY: AddressSanitizer: ")))
         {
             char what[64] = "", path[240] = "", func[100] = "";
@@ -47,7 +78,14 @@ int san_classify(char *key, size_t n)
                 char *b = strrchr(path, '/');
                 char *c = strchr(b ? b + 1 : path, ':');
                 if (c) *c = 0;
-                snprintf(key, n, "asan-%s|%s|%s", what, b ? b + 1 : path, func);
+                if (ufunc[0] && (!strncmp(func, "__interceptor", 13) || strstr(path, "sanitizer_common") || strstr(path, "asan_")))
+                {
+                    snprintf(key, n, "asan-%s|%s|%s", what, ufile, ufunc);
+                }
+                else
+                {
+                    snprintf(key, n, "asan-%s|%s|%s", what, b ? b + 1 : path, func);
+                }
             }
             break;
         }
